@@ -297,10 +297,12 @@ func (ex *Exec) applyContract(fc *FuncContract, fr *FuncRef, args []Value, at as
 	}
 	bindResults(vars, res)
 	actx := &SpecCtx{ex: ex, vars: vars, old: old, pkg: fr.Pkg, assume: true}
-	for _, en := range fc.Ensures {
+	// derived clauses first: they are the most abstract statements and are what gets bound to the fresh values
+	for i := len(fc.Derives) - 1; i >= 0; i-- {
+		en := fc.Derives[i]
 		ex.assume(actx.term(en.Expr), site+"#"+en.Name)
 	}
-	for _, en := range fc.Derives {
+	for _, en := range fc.Ensures {
 		ex.assume(actx.term(en.Expr), site+"#"+en.Name)
 	}
 	return pack(res)
